@@ -141,7 +141,7 @@ func genSqlr(r *Rng) *Enc {
 			case "time":
 				row[j] = Pick(r, known)
 			default:
-				row[j] = Pick(r, []string{"a", "b", "", "x y", "NULL", "0"})
+				row[j] = Pick(r, []string{"a", "b", "", "x y", "NULL", "0", "a ", " ", "pad  ", " lead"})
 				if inPD(names[j]) {
 					t := Pick(r, known)
 					row[j] = t.Format(Pick(r, parseLayouts))
